@@ -1,6 +1,7 @@
 (* RoundTripRun.v — C01, writer side: the invariant WInv along any run of successful calls,
    the ghost block list against the specification functions started / pieces, and the
    shape of the finalized output. *)
+From MLA Require Import Limit.
 From MLA Require Import Base Stream Blocks Writer WriterProofs RoundTripBlocks RoundTripWriter.
 From Coq Require Import ZifyBool ZifyNat ZifyN.
 Open Scope N_scope.
@@ -40,6 +41,7 @@ Proof.
 Qed.
 
 Section RTRun.
+  Context {LIM : Limit}.
   Variable FNMAX : N.
   Variables T_START T_CONTENT T_EOA T_EOF : N.
   Variable H : bytes -> bytes.
@@ -138,6 +140,7 @@ Section RTRun.
       assert (Hnf : o <> OFinalize).
       { intros ->. cbn [Writer.wstep] in E1. unfold Writer.w_finalize_with in E1.
         rewrite (wi_final _ _ _ _ _ _ _ _ HI) in E1. destruct (w_open s); [|discriminate].
+        cbv zeta in E1. destruct (lim <? _); [discriminate|]. destruct (2 ^ 32 <=? _); [discriminate|].
         injection E1 as <- _.
         assert (Hst : w_final s2 = true) by (refine (final_sticky_run ops _ _ _ _ E2); reflexivity).
         congruence. }
@@ -158,15 +161,37 @@ Section RTRun.
       w_footer sf = w_footer s /\
       names_of bl = started 0 ops /\ forall id, concat (datas id bl) = pieces 0 id ops.
   Proof.
+    intros Hrun Hok Hu. revert Hrun Hok Hu.
     rewrite wrun_app. destruct (wrun w_init ops) as [s r1] eqn:E1. cbn [Writer.wrun Writer.wstep].
     destruct (w_finalize_with order s) as [s2 x] eqn:E2. intros [= <- <-] Hok Hu.
     apply Forall_app in Hok. destruct Hok as [Hok1 Hok2]. inversion Hok2 as [|? ? Hx _]; subst.
     unfold Writer.w_finalize_with in E2.
     destruct (w_final s) eqn:Hf; [injection E2 as <- <-; discriminate|].
     destruct (w_open s) eqn:Ho; [|injection E2 as <- <-; discriminate].
+    cbv zeta in E2.
+    destruct (lim <? _); [injection E2 as <- <-; discriminate|].
+    destruct (2 ^ 32 <=? _); [injection E2 as <- <-; discriminate|].
     injection E2 as <- _.
     destruct (wrun_inv ops _ _ _ _ (winv_init FNMAX T_START T_CONTENT T_EOA T_EOF H) E1 Hok1 Hu Hf) as (bl & HI & Hn & Hd).
     exists s, bl. cbn [app] in HI. split; [exact HI|]. split; [exact Ho|]. cbn [w_out].
     rewrite (wi_out _ _ _ _ _ _ _ _ HI). auto.
+  Qed.
+
+  (* ... and a successful finalize means the footer passed the two checks of
+     ArchiveFooter::serialize_into: the bincode limit and the u32 length field *)
+  Theorem writer_final_limits ops sf rs :
+    wrun w_init (ops ++ [OFinalize]) = (sf, rs) -> Forall (fun r => is_ok r = true) rs ->
+    len (ser_footer_map (order (w_footer sf))) <= lim /\ len (ser_footer_map (order (w_footer sf))) < 2 ^ 32.
+  Proof.
+    rewrite wrun_app. destruct (wrun w_init ops) as [s r1] eqn:E1. cbn [Writer.wrun Writer.wstep].
+    destruct (w_finalize_with order s) as [s2 x] eqn:E2. intros [= <- <-] Hok.
+    apply Forall_app in Hok. destruct Hok as [Hok1 Hok2]. inversion Hok2 as [|? ? Hx _]; subst.
+    unfold Writer.w_finalize_with in E2.
+    destruct (w_final s) eqn:Hf; [injection E2 as <- <-; discriminate|].
+    destruct (w_open s) eqn:Ho; [|injection E2 as <- <-; discriminate].
+    cbv zeta in E2.
+    destruct (N.ltb_spec lim (len (ser_footer_map (order (w_footer s))))) as [?|Hl]; [injection E2 as <- <-; discriminate|].
+    destruct (N.leb_spec (2 ^ 32) (len (ser_footer_map (order (w_footer s))))) as [?|H32]; [injection E2 as <- <-; discriminate|].
+    injection E2 as <- _. unfold w_footer in *. cbn [w_files w_ids]. split; assumption.
   Qed.
 End RTRun.
